@@ -106,6 +106,8 @@ class Ghost(F.Hooks):
                     o.bl['#opq'] = True
                 if o.st and slot == 'opd':
                     o.bl.pop('#opq', None)
+                if o.st and slot == 'pre':
+                    o.bl['#uncommitted'] = True       # a prefix operator was consumed and pushed
         if K == 'List' and (pre.bl.get('#pend') or pre.bl.get('#atmax')):
             self.viol.append(('S-list-max',
                               'the element is attempted again without the upper-bound test having '
@@ -132,6 +134,15 @@ class Ghost(F.Hooks):
                 s.bl['#pend'] = True
         elif kind == 'pop' and K == 'Sep':
             s.bl['#last'] = 'popped:' + str(s.bl.get('#last'))
+        elif kind == 'assign' and K == 'OperatorTable' and name == getattr(self, 'marker', None):
+            s.bl.pop('#uncommitted', None)
+        elif kind == 'assign' and name == '_pos' and K == 'OperatorTable' and s.bl.get('#uncommitted') \
+                and val != s.env.get('_pos') and val in (SUCC('opd'), SUCC('post')):
+            # the position is put back behind the last operand: the prefix operators read since then
+            # are no longer consumed, dropping them from the stack is right
+            s.bl.pop('#uncommitted', None)
+            if s.bl.get('#opq'):
+                s.bl['#ended'] = True
         elif kind == 'assign' and name == '_pos' and K == 'OperatorTable':
             if s.bl.get('#opq') and val != s.env.get('_pos') and val in (
                     SUCC('opd'), SUCC('post')):
@@ -202,6 +213,14 @@ class Analysis:
         pre.run()
         self.loop_free = pre.back_edges == 0
         self.ghost = Ghost(self.cls, cfg)
+        if self.cls == 'OperatorTable':
+            # the commit marker: the variable that bounds the final truncation `stack = stack[:marker]`
+            for n in ast.walk(built.tree):
+                if isinstance(n, ast.Assign) and isinstance(n.value, ast.Subscript) \
+                        and isinstance(n.value.slice, ast.Slice) and n.value.slice.lower is None \
+                        and isinstance(n.value.slice.upper, ast.Name) and isinstance(n.value.value, ast.Name) \
+                        and any(isinstance(t, ast.Name) and t.id == n.value.value.id for t in n.targets):
+                    self.ghost.marker = n.value.slice.upper.id
         self.flow = F.Flow(tree_stmts, ch, use_hist=self.loop_free, hooks=self.ghost,
                            entry_env=entry_env, track=track)
         if self.cls == 'List':
@@ -836,6 +855,11 @@ def spec_optable(b, an, bad):
                                      f'not followed by an operand is left unconsumed)')
             if s.emp and any(k.startswith('_operand') and v == 'E' for k, v in s.emp.items()):
                 bad('S-flow', 'OperatorTable: success exit with an empty operand stack')
+            if s.bl.get('#uncommitted') and getattr(an.ghost, 'marker', None):
+                bad('S-optable-commit', f'OperatorTable: a prefix operator was consumed and pushed, but the commit '
+                                        f'marker `{an.ghost.marker}` was not advanced before the expression ended: the '
+                                        f'final truncation of the operator stack drops it (the operator is consumed '
+                                        f'but missing from the tree)')
         elif s.st is False:
             pass
 
